@@ -11,6 +11,16 @@ decoder; both written from the property statement and the tpRender docstring.
 codec states use the rest of the str value space (unpaired surrogates, control characters, ...);
 the one spelling JSON text cannot keep apart (a high surrogate directly before a low one) has a
 probe of its own, and a merge there is filed under a mechanism key.
+Access control: the same histories under template classes that supply the documented
+guarded_getattr / guarded_getitem hooks, with the skip_unauthorized option, over trees in which the
+guard refuses some nodes -- every way to place refused nodes in every small shape (one, two or more
+per folder, first / middle / last / adjacent / all children, with and without children of their
+own), combined with sort / reverse / assume_children / branches / branches_expr / id / prefix /
+urlparam and with branches that hand out their own list, a tuple or a lazy sequence.  "The
+children" are then the children the guard lets through; the oracle is the same set model over the
+accessible tree.  Option spellings in which nothing may be filtered (guard without the option,
+guarded_getattr only, the option without a guard) and the decoration options (header, footer,
+leaves, nowrap, name="...") run over the unchanged model.
 The verdict rests on what the engine emits; the wrappers and anchors on private functions are
 diagnosis (see finish()).
 """
@@ -31,8 +41,17 @@ RULE = ('histories: every ordered tree shape (quick <= 5 nodes, thorough <= 7 no
         'from all code points (surrogates, controls included); codec: seeded growth paths of nested '
         'states whose compressed size walks through every value up to 130..700 bytes, ids over ASCII / '
         'non-ASCII / hostile / surrogate / control alphabets, ints, and (codec only) float, bool and None '
-        'ids; a probe of ids holding an adjacent high+low surrogate pair. One case = one request (or one '
-        'codec state); it '
+        'ids; a probe of ids holding an adjacent high+low surrogate pair. Access control: every shape x every '
+        'antichain of non-root nodes refused by a guarded template class (guarded_getattr + guarded_getitem '
+        'hooks; Unauthorized or a subclass) x 2 of 7 skip_unauthorized variants (name / this / expr root, '
+        'sort+reverse over the object\'s own list, assume_children, branches_expr over tuples, branches= / '
+        'id= / reverse over a lazy sequence, prefix+urlparam; valueless and =1 spelling) x 1 of 6 id schemes '
+        '(rotating, coprime periods), breadth-first like above; every shape x 11 option variants in which '
+        'nothing is filtered (guard without skip_unauthorized, guarded_getattr only, skip_unauthorized '
+        'without guard, name="root" + nowrap, header / footer / leaves documents, own-list / tuple / lazy '
+        'branches with sort / reverse); seeded random trees <= 40 nodes with each node refused with '
+        'probability 0.1 .. 0.5 x random histories <= 30 under all 18 new variants. '
+        'One case = one request (or one codec state); it '
         'is non-trivial when the tree has a node that can be expanded (the state is non-empty); distinct = '
         'distinct (variant, tree, history so far, action) resp. distinct encoded strings')
 ASSUMPTIONS = ['sibling ids are unique (a path of ids names one node); ids are str or int (histories), any '
@@ -48,7 +67,24 @@ ASSUMPTIONS = ['sibling ids are unique (a path of ids names one node); ids are s
                'a link is followed through URL query parsing, so its value must survive that unchanged; '
                'the padding character = is harmless there and is only counted, not demanded absent',
                'links of earlier pages (back button) are not clicked: only the current page and a '
-               'refresh of the last request']
+               'refresh of the last request',
+               'access control: under a template class with guarded_getattr AND guarded_getitem hooks and the '
+               'skip_unauthorized option, "the children" of a node are the children the guard does not refuse; a '
+               'refused node and everything below it are not part of the model tree (rows, links, expand_all set, '
+               'cookie). The guard refuses by a mark on the object and lets every attribute through',
+               'a guard WITHOUT skip_unauthorized is only run over trees in which nothing is refused (a refusal '
+               'ends the request with Unauthorized, about which the statement says nothing); with only a '
+               'guarded_getattr hook, or with no hook at all, skip_unauthorized has nothing to skip and the marks '
+               'must not matter',
+               'an expand_all request whose cookie additionally lists refused nodes / nodes whose children are all '
+               'refused is filed under the mechanism key expand-all-puts-inaccessible-nodes-into-the-cookie '
+               '(classifier: that and nothing else is wrong); the history is not continued past it',
+               'header= / footer= / leaves= documents: the rows they add are recognised by their marks, counted and '
+               'set aside, not judged; leaves= (like assume_children) may give a childless row a link, which then '
+               'toggles that row',
+               'branches may hand out a fresh list, the object\'s own list, a tuple or a sequence with only '
+               '__len__ / __getitem__; that the engine leaves an own list unchanged is not demanded by itself '
+               '(it shows in the rows of the next request when it matters)']
 SHARD_TIMEOUT = {'quick': 600, 'thorough': 3000}
 NSHARDS = {'quick': 16, 'thorough': 48}
 
@@ -56,6 +92,9 @@ MAXNODES = {'quick': 5, 'thorough': 7}
 HISTLEN = {'quick': 4, 'thorough': 5}
 RANDOM_TREES = {'quick': 480, 'thorough': 5000}
 WILD_TREES = {'quick': 160, 'thorough': 1600}          # random trees with ids from all code points
+GUARD_TREES = {'quick': 320, 'thorough': 3200}         # random trees with inaccessible nodes / option variants
+GUARD_SCHEMES = ('ascii', 'same', 'int', 'mixed', 'uni', 'surr')
+OPT_SCHEMES = ('ascii', 'mixed', 'urlish', 'long', 'ctrl')
 CODEC_STATES = {'quick': 64000, 'thorough': 400000}
 CODEC_WILD_STATES = {'quick': 24000, 'thorough': 150000}   # surrogate / control / scalar alphabets
 PAIR_STATES = {'quick': 640, 'thorough': 4800}
@@ -199,19 +238,64 @@ def classify_raise(exc, browser):
     return None
 
 
+MECH_EXPAND_ALL = 'expand-all-puts-inaccessible-nodes-into-the-cookie'
+
+
+def classify_problems(browser, effect, problems):
+    """Mechanism key of a known finding for a page that rendered but was judged wrong, or None.
+
+    expand_all builds its state by walking the branches WITHOUT the security filter the rows go
+    through: under a guarded template with skip_unauthorized the cookie then also lists (a) nodes
+    the guard refuses (never shown) and what lies below them, and (b) shown nodes all of whose
+    children are refused (shown childless, no link).  Claimed only when that is ALL that is wrong:
+    the request is an expand_all, rows and links were right, the cookie misses nothing, and every
+    extra path names a node of the recipe that has children and is of kind (a) or (b)."""
+    if not (browser.filter and browser.hidden and effect == ('all',)):
+        return None
+    if len(problems) != 1 or not problems[0].startswith('cookie describes') or not browser.cookie_diff:
+        return None
+    extra, missing = browser.cookie_diff
+    if missing or not extra:
+        return None
+    root = browser.model.root
+    for p in extra:
+        if not p or not U.same_ids(p[0], root.mid):
+            return None
+        node, through_secret = root, False
+        for x in p[1:]:
+            nxt = [c for c in node.allchildren if U.same_ids(c.mid, x)]
+            if len(nxt) != 1:
+                return None
+            node = nxt[0]
+            through_secret = through_secret or node.secret
+        if not node.allchildren:
+            return None
+        if not (through_secret or not node.children):
+            return None
+    return MECH_EXPAND_ALL
+
+
 # ---------------------------------------------------------------- the browser
 class Browser:
     def __init__(self, ctx, mon, templates, vname, spec, treekey):
-        from DocumentTemplate.DT_HTML import HTML
         self.ctx = ctx
         self.mon = mon
         self.vname = vname
         self.v = v = U.variant(vname)
         src = U.template_source(v)
-        t = templates.get(src)
+        # one compiled template per (class, source) and shard: it is rendered again and again
+        # for other trees, other users' cookies, other histories
+        t = templates.get((v['guard'], src))
         if t is None:
-            t = templates[src] = HTML(src)
+            t = templates[(v['guard'], src)] = U.template_class(v['guard'])(src)
             t.cook()
+        self.docs = {}
+        if v['decor']:
+            for name, mark in U.DECOR_MARKS.items():
+                d = templates.get(('doc', name))
+                if d is None:
+                    d = templates[('doc', name)] = U.template_class(None)(U.DECOR_SOURCE % mark)
+                self.docs[name] = d
         self.src = src
         self.tmpl = t
         self.spec = spec
@@ -219,6 +303,9 @@ class Browser:
         self.rootobj, mroot = U.build(spec, v)
         self.model = Model(mroot, v)
         self.nontrivial = bool(self.model.internal_paths())
+        self.filter = v['filter']
+        self.hidden = self.filter and any(n.secret for n in all_nodes(mroot))
+        self.cookie_diff = None
         # which expandable nodes carry an id of the wider str space (evidence that such ids were
         # in the state that the cookie had to carry, not merely somewhere in the tree)
         self.lone_paths = {p for p in self.model.internal_paths() if U.has_lone(p[-1])}
@@ -246,6 +333,34 @@ class Browser:
     def case(self, action):
         return {'kind': 'history', 'variant': self.vname, 'spec': self.spec, 'treekey': self.treekey,
                 'history': self.history + [action]}
+
+    def count_filtered(self, want):
+        """Evidence that the security filter had something to do: per folder whose children are
+        listed on this page (the root and every expanded row), how many children the guard
+        refuses and where they stand."""
+        ctx = self.ctx
+        m = self.model
+        ctx.count('guard:requests with the filter active')
+        ctx.count('guard:rows compared under the filter', len(want))
+        folders = [m.root] + [n for n in want if n.children and m.path_of[n.tok] in m.expanded]
+        for f in folders:
+            flags = [c.secret for c in f.allchildren]
+            k = sum(flags)
+            if not k:
+                continue
+            ctx.count('guard:folders listed with %s inaccessible' % ('1 child' if k == 1 else '>= 2 children'))
+            if k >= 2:
+                if flags[-1]:
+                    ctx.count('guard:folders listed with >= 2 inaccessible children, the last child one of them')
+                first = flags.index(True)
+                if not all(flags[first:first + k]):
+                    ctx.count('guard:folders listed with >= 2 inaccessible children, accessible ones in between')
+                if not all(flags[len(flags) - k:]):
+                    ctx.count('guard:folders listed with >= 2 inaccessible children, an accessible one after them')
+            if k == len(flags):
+                ctx.count('guard:folders listed whose children are all inaccessible')
+            if any(c.allchildren for c in f.allchildren if c.secret):
+                ctx.count('guard:folders listed with an inaccessible child that has children')
 
     def links_of(self, tok):
         for t, links in self.page or ():
@@ -299,6 +414,7 @@ class Browser:
         # the request, as a browser would send it
         resp = U.Response()
         request = {'URL': self.v['url'], 'RESPONSE': resp}
+        request.update(self.docs)
         if self.cookie is not None:
             request['tree-s'] = self.cookie
         request.update(form)            # form values win over cookies, as in a Zope REQUEST
@@ -318,9 +434,15 @@ class Browser:
             return False
         self.last_out = out
         problems = list(self.mon.problems)
+        self.cookie_diff = None
+        if self.v['decor']:
+            out, marks = U.strip_decor(out)
+            for mk in marks:
+                ctx.count('decor:%s rows set aside' % mk)
         cookie, page = self.check_page(out, resp, problems)
         if problems:
             ctx.violation(safe('; '.join(problems[:3])), case,
+                          mech=classify_problems(self, effect, problems),
                           key='hist_%s_%s' % (self.vname, slug(problems[0])),
                           detail={'cookie_before': self.cookie, 'form': form, 'source': self.src,
                                   'output': safe(out[:1500]) if isinstance(out, str) else repr(out)[:300],
@@ -347,6 +469,8 @@ class Browser:
             want = m.rows()
             got = [t for t, _ in page]
             ctx.count('rows:compared', len(want))
+            if self.filter:
+                self.count_filtered(want)
             if got != [n.tok for n in want]:
                 problems.append('rows shown %r, expected %r (depth-first over the expanded set)'
                                 % (got[:30], [n.tok for n in want][:30]))
@@ -427,6 +551,7 @@ class Browser:
             if self.ctrl_paths and not self.ctrl_paths.isdisjoint(m.expanded):
                 ctx.count('ids:cookies carrying an expanded control-character id')
             if got != want:
+                self.cookie_diff = (got - want, want - got)
                 problems.append('cookie describes %s, expanded set is %s'
                                 % (short(sorted(got - want, key=repr), 120) + ' extra / ' +
                                    short(sorted(want - got, key=repr), 120) + ' missing',
@@ -442,6 +567,13 @@ class Browser:
                 problems.append('decode_seq reads the cookie as %s, independent decoder %s'
                                 % (short(edec, 100), short(dec, 100)))
         return cookie, page
+
+
+def all_nodes(mnode):
+    """Every node of the recipe below mnode, the inaccessible ones included."""
+    for c in mnode.allchildren:
+        yield c
+        yield from all_nodes(c)
 
 
 class Model(U.Model):
@@ -822,6 +954,34 @@ def bfs_jobs(tier):
     return jobs
 
 
+def guard_jobs(tier):
+    """Deterministic job list of the guarded / option variants.
+
+    Filter active (VARIANTS_GUARD): every shape x EVERY way to make nodes inaccessible (every set
+    of non-root nodes none of which lies below another one; the empty set included), each with
+    two of the variants and one id scheme, rotating (periods 7 / 6 / 3 are coprime).
+    Nothing filtered (VARIANTS_OPT): every shape x every variant, every second node marked."""
+    jobs = []
+    gnames = list(U.VARIANTS_GUARD)
+    i = 0
+    for n in range(2, MAXNODES[tier] + 1):
+        for shape in U.shapes(n):
+            for secrets in U.secret_sets(shape):
+                i += 1
+                scheme = GUARD_SCHEMES[i % len(GUARD_SCHEMES)]
+                for j in range(2):
+                    vname = gnames[(2 * i + j) % len(gnames)]
+                    jobs.append((shape, scheme, LEAFSTYLES[(i + j) % 3], vname, secrets))
+    i = 0
+    for n in range(1, MAXNODES[tier] + 1):
+        for shape in U.shapes(n):
+            for j, vname in enumerate(U.VARIANTS_OPT):
+                i += 1
+                jobs.append((shape, OPT_SCHEMES[i % len(OPT_SCHEMES)], LEAFSTYLES[(i + j) % 3], vname,
+                             U.alternate_secrets(shape)))
+    return jobs
+
+
 def run(ctx, spec):
     from TreeDisplay import TreeTag
     from vlib.reach import Reach
@@ -859,6 +1019,18 @@ def run(ctx, spec):
                         'rows': [t for t, _ in b.page],
                         'links': [[t, l[0][0], U.indep_decode(l[0][1])[0]] for t, l in b.page if l]})
 
+    # 1b. guarded template classes x skip_unauthorized x inaccessible nodes; option variants
+    for i, (shape, scheme, leafstyle, vname, secrets) in enumerate(guard_jobs(tier)):
+        if i % ctx.nshards != ctx.shard:
+            continue
+        tspec = U.spec_from_shape(shape, scheme, leafstyle, secrets)
+        treekey = '%s/%s/%s/sec%s' % (U.shape_key(shape), scheme, leafstyle, '.'.join(map(str, sorted(secrets))))
+        filt = vname in U.VARIANTS_GUARD
+        ctx.table('variants (guard bfs)' if filt else 'variants (option bfs)', vname)
+        if filt:
+            ctx.table('inaccessible nodes per tree (guard bfs)', len(secrets))
+        bfs(ctx, mon, templates, vname, tspec, treekey, HISTLEN[tier])
+
     # 2. random larger trees x random histories
     ntrees = RANDOM_TREES[tier] // ctx.nshards
     vnames = list(U.VARIANTS)
@@ -893,6 +1065,19 @@ def run(ctx, spec):
         codec_paths(ctx, mon, rng, CODEC_WILD_STATES[tier] // ctx.nshards, sizes, WILD_ALPHABETS, wild=True)
         pair_probe(ctx, mon, rng, PAIR_STATES[tier] // ctx.nshards)
         codec_large(ctx, mon, rng, sizes)
+    # 4. random trees with inaccessible nodes under the guarded / option variants (after the codec part: the
+    #    random streams of the older parts stay what they were)
+    gnames = list(U.VARIANTS_GUARD) * 2 + list(U.VARIANTS_OPT)
+    for j in range(GUARD_TREES[tier] // ctx.nshards):
+        tspec = U.random_spec(rng, 40, U.WILD_STYLES if rng.random() < 0.25 else None)
+        nsec = U.sprinkle_secrets(tspec, rng, rng.choice([0.1, 0.25, 0.25, 0.5]))
+        vname = rng.choice(gnames)
+        treekey = 'guard/%d/%d/%d' % (ctx.seed, ctx.shard, j)
+        ctx.count('random:trees with inaccessible nodes')
+        ctx.table('random trees, marked nodes', '%02d-%02d' % (nsec // 5 * 5, nsec // 5 * 5 + 4))
+        ctx.table('variants (random, guard / option)', vname)
+        random_history(ctx, mon, templates, rng, vname, tspec, treekey, rng.randint(5, 30))
+
     for form in sizes:
         for s in critical_sizes(form):
             if s in sizes[form]:
@@ -944,7 +1129,18 @@ def finish(agg):
               'ids:links of unpaired-surrogate ids', 'ids:links of control-character ids',
               'random:trees with ids from all code points',
               'codec:states with unpaired surrogates', 'codec:states with control characters',
-              'codec:float / bool / None ids', 'codec:states with an adjacent surrogate pair'):
+              'codec:float / bool / None ids', 'codec:states with an adjacent surrogate pair',
+              # the security filter must have had something to leave out, in the arrangements that
+              # tell a correct filter from a sloppy one
+              'guard:requests with the filter active', 'guard:rows compared under the filter',
+              'guard:folders listed with 1 child inaccessible',
+              'guard:folders listed with >= 2 children inaccessible',
+              'guard:folders listed with >= 2 inaccessible children, the last child one of them',
+              'guard:folders listed with >= 2 inaccessible children, accessible ones in between',
+              'guard:folders listed with >= 2 inaccessible children, an accessible one after them',
+              'guard:folders listed whose children are all inaccessible',
+              'guard:folders listed with an inaccessible child that has children',
+              'random:trees with inaccessible nodes'):
         if not c.get(k):
             inc.append('deciding monitor never evaluated: ' + k)
     for form in ('seq', 'str'):
@@ -952,13 +1148,21 @@ def finish(agg):
         miss = [s for s in critical_sizes(form) if not hit.get('%03d' % s)]
         if miss:
             inc.append('codec (%s form): no state with compressed size %s' % (form, miss))
+    for table, names in (('variants (guard bfs)', U.VARIANTS_GUARD), ('variants (option bfs)', U.VARIANTS_OPT)):
+        seen = t.get(table, {})
+        for name in names:
+            if not seen.get(name):
+                inc.append('variant never explored: %s' % name)
     nshapes = {'quick': 23, 'thorough': 197}[agg['tier']]
     return {'inconclusive': inc,
             'coverage': {'exhaustive': True,
                          'internal_anchor_diagnostics': diagnostics,
                          'explanation': 'exhaustive: all %d ordered tree shapes with <= %d nodes x %d id schemes x '
                                         '%d tag-option variants, every action of every '
-                                        'page up to history length %d deduplicated on (cookie, model state); the random '
+                                        'page up to history length %d deduplicated on (cookie, model state); likewise all '
+                                        'shapes x all placements of refused nodes (antichains) under guarded '
+                                        'skip_unauthorized variants (2 of 7 each, rotating) and all shapes x 11 option '
+                                        'variants; the random '
                                         'trees/histories, the codec growth paths and the surrogate-pair probe are '
                                         'seeded samples'
                                         % (nshapes, MAXNODES[agg['tier']], len(U.SCHEMES) + len(U.SCHEMES_WILD),
